@@ -768,7 +768,9 @@ impl ProxyServer {
 
         const MAX_ERROR_DETAILS_LEN: usize = 4096; // 4KB
         if error_details.len() > MAX_ERROR_DETAILS_LEN {
-            error_details.truncate(MAX_ERROR_DETAILS_LEN);
+            error_details =
+                misc_helpers::truncate_at_char_boundary(&error_details, MAX_ERROR_DETAILS_LEN)
+                    .to_string();
         }
 
         let summary = ProxySummary {
